@@ -421,6 +421,13 @@ def pick_selector(g, env, a):
     if not c:
         return None
     n = g.pick(c)
+    if k == 'elem' and any(vv.get('alias_n') and vv.get('aname') for vv in se.vars.values()):
+        # prefer an array that can be subscripted by an associate name denoting n
+        lo, hi = se.nval_range
+        elig = [m for m in c if any(dd[0] <= lo and (dd[1] == 'n' or (isinstance(dd[1], int) and dd[1] >= hi))
+                                    for dd in env.vars[m]['dims'])]
+        if elig and g.chance(60):
+            n = g.pick(elig)
     v = env.vars[n]
     feat_src = ':component' if v.get('path') else (':assoc-of-assoc' if v.get('aname') else '')
     if k == 'elem':
@@ -835,7 +842,8 @@ def cases(draw, hazard=None, nvec=4):
     if g.chance(70):
         t = g.pick(['int', 'real'])
         lb = g.pick([1, 1, 0, 2])
-        larr.append((f'l{"ia" if t == "int" else "ra"}0', t, [[lb, lb + g.i(2, 4)]] if g.chance(70) else [[lb, lb + 1], [1, 2]]))
+        larr.append((f'l{"ia" if t == "int" else "ra"}0', t,
+                     [[lb, lb + g.i(2, 4) if g.chance(75) else max(B.NMAX, lb + 2)]] if g.chance(70) else [[lb, lb + 1], [1, 2]]))
     args, decls, entry_args, prologue = small_entry(g, env, arr_decls, funcs, subs, nint=g.i(1, 2), nreal=1,
                                                     nlog=g.i(0, 1), local_arrays=larr)
 
